@@ -26,5 +26,5 @@ For each change deliver in {wt}-out/<k>/ (k = 1, 2, ...):
   notes.md     - which part of the property it breaks, what it needs in order to manifest, which existing test targets you ran (with pass counts) to confirm the existing tests still pass with the change.
 Leave the worktree clean at the end (`git checkout -- . && git clean -fd` inside {wt}, but keep {wt}-out).
 
-Practicalities: the sandbox is offline; always pass `--offline` to cargo. Use your own build directory: `export CARGO_TARGET_DIR={tgt}` (shared with another engineer who works on a different property in a different worktree: builds may wait for a file lock – expected; never delete it. IMPORTANT: because the two worktrees share this build directory, cargo can link the OTHER worktree's build of a workspace crate. Right before every decisive run (demo with/without patch, existing tests) run `touch rust/*/src/lib.rs rust/compression/*/src/lib.rs` inside YOUR worktree so that every workspace crate is rebuilt from your sources within that one cargo invocation) (first build of a crate's tests takes several minutes; the big `lance` crate test binary takes 10+ minutes to build, so prefer running only the test targets of the crates you touch and their closest dependents, e.g. `cargo test --offline -p lance-core`, `cargo test --offline -p lance-index --lib scalar::`, `cargo test --offline -p lance --lib dataset::write::` with a filter relevant to the code you changed; state exactly what you ran). Use at most 6 parallel build jobs (`-j 6`) because other work shares the machine. Keep command output short (pipe through `tail`). Set RUST_BACKTRACE=0.
+Practicalities: the sandbox is offline; always pass `--offline` to cargo. Use your own build directory: `export CARGO_TARGET_DIR={tgt}` (your own private build directory) (first build of a crate's tests takes several minutes; the big `lance` crate test binary takes 10+ minutes to build, so prefer running only the test targets of the crates you touch and their closest dependents, e.g. `cargo test --offline -p lance-core`, `cargo test --offline -p lance-index --lib scalar::`, `cargo test --offline -p lance --lib dataset::write::` with a filter relevant to the code you changed; state exactly what you ran). Use at most 6 parallel build jobs (`-j 6`) because other work shares the machine. Keep command output short (pipe through `tail`). Set RUST_BACKTRACE=0.
 Finish with a short summary of the changes and the verification you did.""")
